@@ -119,7 +119,8 @@ class PbnParser(Parser):
             # game except the first game of the PBN file.
             match = re.fullmatch(self.REPLACE_PATTERN, line)
             if match and not self._in_comment:
-                yield self.parse_board()
+                if len(self.tag_pair_buffer) != 0:
+                    yield self.parse_board()
 
                 # initialization
                 self.tag_pair_buffer = list()
